@@ -164,6 +164,8 @@ func runCheck(id, tier, repo, only string, workers int, noNative bool) int {
 			return x.zeroResults(fn), true
 		}
 	}
+	eng.initPackage(eng.target, false)
+	eng.bridgeSwagPrefix()
 	eng.seed = seed
 	eng.solverKind = envOr("VERIF_SOLVER", "z3")
 	if tier == "thorough" {
